@@ -433,18 +433,23 @@ class FieldStorage:
         if has_read > max_read:
             raise BodySizeError('Max in-memory read limit exceed')
         src.seek(start)
-        headers_raw = src.read(sz).decode()
-        for header_raw in headers_raw.splitlines():
-            header = self.parse_header(header_raw)
-            self.headers[header.name] = header
-            if header.name == 'Content-Disposition':
-                self.name = header.options['name']
-                self.filename = header.options.get('filename')
-            elif header.name == 'Content-Type':
-                self.ctype = header.value
+        headers_raw = src.read(sz)
+        try:
+            headers_raw = headers_raw.decode()
+            for header_raw in headers_raw.splitlines():
+                header = self.parse_header(header_raw)
+                self.headers[header.name] = header
+                if header.name == 'Content-Disposition':
+                    self.name = header.options['name']
+                    self.filename = header.options.get('filename')
+                elif header.name == 'Content-Type':
+                    self.ctype = header.value
+        except (ValueError, KeyError, StopIteration) as err:
+            # not UTF-8, no colon, no `name` parameter, empty value
+            raise BodyParsingError(f'Malformed field headers ({err!r}): {headers_raw!r}')
 
         if self.name is None:
-            raise BodyParsingError(f'Noname field found while parsing multipart/formdata body: {header_raw}')
+            raise BodyParsingError(f'Noname field found while parsing multipart/formdata body: {headers_raw!r}')
 
         if self.filename is not None:
             self.file = BytesIOProxy(src, *data_section)
@@ -456,7 +461,10 @@ class FieldStorage:
                 if has_read > max_read:
                     raise BodySizeError('Max in-memory read limit exceed')
                 src.seek(start)
-                self.value = src.read(sz).decode()
+                try:
+                    self.value = src.read(sz).decode()
+                except ValueError:
+                    raise BodyParsingError(f'Field `{self.name}` is not valid UTF-8 text')
             else:
                 self.value = ''
         return has_read
